@@ -101,6 +101,9 @@ def verify_function(e: Engine, qname: str) -> FunctionResult:
             st.store[name] = sv
             if ty.kind == "obj":
                 e.assume_alive(st, sv)
+                # the declared class of a parameter is a precondition (asserted at every call site)
+                if ty.cls in e.repo.classes or ty.cls in ("TokenOrStr", "str"):
+                    st.assume(Or(sv.none, e.class_in(sv.v, ty.cls)))
             e.wf(st, sv)
             interest_of(name, sv, e.interest)
         for g, ts in c.ghost.items():
@@ -111,7 +114,7 @@ def verify_function(e: Engine, qname: str) -> FunctionResult:
         entry = st.fork()
         e.entry = entry
         # preconditions
-        for name, expr in c.requires.items():
+        for name, expr in list(c.requires.items()) + list(c.ghost_init.items()):
             st.assume(e.eval_spec(expr, st, {}, None, entry, c))
         for fn in e.reg.axioms:
             fn(e, st)
